@@ -15,7 +15,7 @@ Outcomes == {"ret", "throw"}
 (* entries whose first two parameters are the lengths of two arrays that must agree *)
 PairwiseEntries == {"add", "sub", "mul", "div", "iadd", "isub", "imul", "idiv", "cadd", "cmul", "cdiv", "icadd",
                     "dot", "cdot", "complex", "power_vv", "cpower_vv", "gt", "lt", "eq", "ne", "cgt", "ceq", "mask", "lms", "rls",
-                    "gccphat"}
+                    "nlms", "nlms_c", "rls_r", "gccphat"}
 (* plan objects built for length p[1] applied to an input of length p[2] *)
 PlanEntries == {"FftPlan", "FftPlanR", "IfftPlan", "CztPlan", "plan_ptr_c", "plan_ptr_r"}
 
@@ -40,7 +40,7 @@ MustThrow(entry, p) ==
       [] entry = "istft_bins" -> TRUE
       [] OTHER -> FALSE
 MustReturn(entry, p) ==
-    CASE entry \in PairwiseEntries \ {"lms", "rls", "gccphat"} -> p[1] = p[2]
+    CASE entry \in PairwiseEntries \ {"lms", "rls", "nlms", "nlms_c", "rls_r", "gccphat"} -> p[1] = p[2]
       [] entry \in PlanEntries -> p[1] = p[2]
       [] entry \in {"idx", "cidx", "idx_arr"} -> p[2] = 0 /\ p[3] > 0                      \* in-range, non-empty list
       [] entry \in {"fft", "ifft", "rfft", "fft_n", "rfft_n", "xcorr", "isprime", "factor", "nextprime", "primes"} -> TRUE
